@@ -10,6 +10,22 @@ package compiler
 //@   property C01 C05 C18
 //@   case filter: loop-height count
 //@   case map: loop-height i
+// semantics of the loops (C18): invariant at the loop head and the value left, over the spec functions
+// n, elem(k), f(k), p(k) = boolof(f(k)), cnt(k) = #{j < k : p(j)}, st(j), h, h0, alen, aelem
+//@   case all: sem-inv h == h0 && forall(k, 0, i, p(k))
+//@   case all: sem-result r == boolv(forall(k, 0, n, p(k)))
+//@   case none: sem-inv h == h0 && forall(k, 0, i, !p(k))
+//@   case none: sem-result r == boolv(forall(k, 0, n, !p(k)))
+//@   case any: sem-inv h == h0 && forall(k, 0, i, !p(k))
+//@   case any: sem-result r == boolv(exists(k, 0, n, p(k)))
+//@   case one: sem-inv h == h0 && count == cnt(i) && cnt(i) >= 0 && cnt(i) <= i
+//@   case one: sem-result r == boolv(cnt(n) == 1)
+//@   case count: sem-inv h == h0 && count == cnt(i) && cnt(i) >= 0 && cnt(i) <= i
+//@   case count: sem-result r == intv(cnt(n))
+//@   case filter: sem-inv h == h0 + cnt(i) && count == cnt(i) && cnt(i) >= 0 && cnt(i) <= i && forall(k, 0, i, p(k) ==> cnt(k) >= 0 && cnt(k) < cnt(i) && st(h0 + cnt(k)) == elem(k))
+//@   case filter: sem-result alen(r) == cnt(n) && forall(k, 0, n, p(k) ==> cnt(k) >= 0 && cnt(k) < cnt(n) && aelem(r, cnt(k)) == elem(k))
+//@   case map: sem-inv h == h0 + i && forall(k, 0, i, st(h0 + k) == f(k))
+//@   case map: sem-result alen(r) == n && forall(k, 0, n, aelem(r, k) == f(k))
 
 // encoding helpers (C05): operands are little-endian 16-bit values; a patched forward jump lands exactly
 // at the end of the code emitted so far, a backward jump exactly at `to`.
